@@ -1,6 +1,7 @@
 package vuego
 
 import (
+	"fmt"
 	"strings"
 
 	"golang.org/x/net/html"
@@ -88,6 +89,9 @@ func (v *Vue) evalSlot(ctx VueContext, node *html.Node, slotScope *SlotScope) ([
 
 		// Evaluate the binding value
 		val, err := v.exprEval.Eval(attr.Val, v.exprEnv(ctx, attr.Val))
+		if isFuncCallError(err) {
+			return nil, fmt.Errorf("in slot binding %s=\"%s\": %w", attr.Key, attr.Val, err)
+		}
 		if err == nil && val != nil {
 			slotProps[propName] = val
 		}
